@@ -49,7 +49,7 @@ theorem posmap_strict_mono (units : List Nat) (start : Nat) :
 /-- Index translation preserves order and stays inside the subject: a rune-level span a ≤ b maps to
 UTF-16 indices s ≤ e ≤ |subject| (hence 0 ≤ start ≤ end ≤ |s| for the match and every capture, and a
 capture inside the match at rune level stays inside it at code-unit level). -/
-theorem match_bounds (units : List Nat) (start a b : Nat) (hab : a ≤ b)
+theorem span_match_bounds (units : List Nat) (start a b : Nat) (hab : a ≤ b)
     (hb : b ≤ (buildPosMap units start).runes.length) :
     ∃ s e, (buildPosMap units start).posMap[a]? = some s ∧ (buildPosMap units start).posMap[b]? = some e ∧
       s ≤ e ∧ e ≤ units.length := by
